@@ -97,6 +97,7 @@ inductive Event where
   | buffered (n : Nat)         -- ghost: a literal of n octets was buffered in memory
   | appendLit (n : Nat) (accepted : Bool)  -- ghost: APPEND saw a literal of n octets
   | depthAt (n : Nat)          -- ghost: a recursive parser (List callback, search key) runs n deep
+  | dispatch (name : Bytes)    -- ghost: readCommand dispatched on this (upper-cased) command name
 deriving DecidableEq, Repr
 
 /-- which repairs are in effect -/
@@ -911,7 +912,8 @@ def cmdHeader (s : S) : Option (Bytes × Bytes) × S :=
           else (some (tag, upper name0), s)
 
 /-- run the handler: (the unknown-command BYE is pending, the handler's error, the state) -/
-def runHandler (h : Handler) (s : S) : Bool × Option Err × S :=
+def runHandler (name : Bytes) (h : Handler) (s : S) : Bool × Option Err × S :=
+  let s := s.emit (.dispatch name)
   match h with
   | .run f => let (e, s) := f s; (false, e, s)
   | _ =>
@@ -938,7 +940,7 @@ def readCommand (cfg : Cfg) (s0 : S) : Bool × S :=
     match handlerOf cfg name with
     | .opaque => (false, s.emit .opaque)
     | h =>
-      let (byeUnknown, e, s) := runHandler h s
+      let (byeUnknown, e, s) := runHandler name h s
       if s.evs.head? == some .opaque then (false, s)
       else (true, finishCommand cfg tag byeUnknown e s)
 
